@@ -21,7 +21,10 @@ Upserts == {
      UC(SetU("o", Path("r")), Fn("attribute_not_exists", <<Path("h")>>), <<>>), Get(T1, K) >>,   \* the condition sees no item, then the item
   << UC(SetU("o", Val(":x")), Fn("attribute_exists", <<Path("h")>>), One(":x", S1(122))), Get(T1, K) >>,   \* refused: nothing is created
   << U(SetU("o", Path("h")), <<>>), U(SetU("o", Path("r")), <<>>), Get(T1, K), ScanOp("c1", T1, NoIndex, NoFilter, <<>>, <<>>) >> }
-Traces == { Start \o t : t \in Upserts }
+\* DeleteItem with a ReturnValues value the operation does not have: refused or ignored, and a refusal deletes nothing
+OddDelete(rv) == [Del(T1, K2, FALSE) EXCEPT !.retold = FALSE] @@ [retvals |-> rv]
+OddDeletes == { << OddDelete(rv), Get(T1, K2), ScanOp("c1", T1, NoIndex, NoFilter, <<>>, <<>>) >> : rv \in {"ALL_NEW", "UPDATED_OLD", "UPDATED_NEW", "NONE", "ALL_OLD"} }
+Traces == { Start \o t : t \in Upserts \cup OddDeletes }
 ASSUME \A t \in Traces : PrintT(ToJson([kind |-> "trace", ops |-> t]))
 SetupDef == <<>>
 MenuDef == <<>>
